@@ -3,7 +3,7 @@
    and the same three maps afterwards.  The consistent-hash tables are handed over by the driver (computed with
    felix/bpf/consistenthash, as the syncer does): per apply, (ready endpoint addresses, table) pairs. *)
 From Coq Require Import List NArith Bool Arith.
-From Verif.C42 Require Import Model Spec ModelMg.
+From Verif.C42 Require Import Model Spec ModelMg ModelWrap.
 Import ListNotations.
 Open Scope N_scope.
 
@@ -23,6 +23,7 @@ Fixpoint model3_agrees (cfg : config) (mgfix : bool) (lut : N) (sy : syncer) (d 
   match ops with
   | [] => true
   | ORestart :: t => model3_agrees cfg mgfix lut new_syncer d t
+  | OSetNext n :: t => model3_agrees cfg mgfix lut (SY n (sy_prev sy) (sy_synced sy)) d t
   | OApply st v fF fB tr err fe be _ tabs mga :: t =>
       match exec_apply3 cfg mgfix lut (mk_lutf tabs) sy d st v fF fB tr with
       | None => false
@@ -32,7 +33,28 @@ Fixpoint model3_agrees (cfg : config) (mgfix : bool) (lut : N) (sy : syncer) (d 
       end
   end.
 
+(* the two-map model with uint32 id arithmetic (ModelWrap) on the NAT-map writes *)
+Fixpoint model32_agrees (cfg : config) (sy : syncer) (d : dp) (ops : list op) : bool :=
+  match ops with
+  | [] => true
+  | ORestart :: t => model32_agrees cfg new_syncer d t
+  | OSetNext n :: t => model32_agrees cfg (SY n (sy_prev sy) (sy_synced sy)) d t
+  | OApply st v fF fB tr err fe be _ _ _ :: t =>
+      match exec_apply32 cfg sy d st v fF fB (core_writes tr) with
+      | None => false
+      | Some (sy', d', err') =>
+          Bool.eqb err err' && femap_eqb (fst d') fe && bemap_eqb (snd d') be && model32_agrees cfg sy' d' t
+      end
+  end.
+Definition has_setnext (ops : list op) : bool :=
+  existsb (fun o => match o with OSetNext _ => true | _ => false end) ops.
+
+(* agreement: always with the uint32 model; with the N-counting models (Model, ModelMg) too unless the history puts
+   the id counter near the wrap (they coincide below 2^32: c42_uint32_model_coincides) *)
 Definition check_case3 (c : case) : bool * bool :=
   let r := check_case c in
-  (fst r && model3_agrees (Config (k_npips c) (k_reset c)) (k_mgfix c) (k_lut c) new_syncer (([], []), []) (k_ops c),
+  let cfg := Config (k_npips c) (k_reset c) in
+  (model32_agrees cfg new_syncer ([], []) (k_ops c)
+   && (has_setnext (k_ops c)
+       || (fst r && model3_agrees cfg (k_mgfix c) (k_lut c) new_syncer (([], []), []) (k_ops c))),
    snd r).
